@@ -9,10 +9,8 @@ package validate
 
 import (
 	"encoding/json"
-	"math"
 
 	"github.com/go-openapi/spec"
-	"github.com/go-openapi/swag"
 )
 
 // symNum: a fully symbolic JSON number (float64), finite, |x| <= 2^53-1 (the JSON safe-integer
@@ -24,14 +22,6 @@ func symNum() float64 {
 	f := verifFloat64()
 	verifAssume(verifAnd(f == f, -maxSafe <= f, f <= maxSafe))
 	return f
-}
-
-// kfNearInteger: C01-KF-INT — the non-integral numbers that the tolerance-based integer test used by
-// the type validator (swag.IsFloat64AJSONInteger: relative distance to the truncated value below
-// 1e-9) takes for integers, e.g. 3.0000000001. The region is written with the library predicate
-// itself so that it is exactly the set of failing inputs (and is decided propositionally).
-func kfNearInteger(f float64) bool {
-	return verifAnd(f != math.Trunc(f), swag.IsFloat64AJSONInteger(f))
 }
 
 // schemaHasApplicators: anything beyond type/enum (what the nil-instance early exit skips)
@@ -85,7 +75,6 @@ func HarnessC01Type() {
 		d = verifBool()
 	case 2:
 		f := symNum()
-		verifKF("C01-KF-INT", kfNearInteger(f))
 		d = f
 	case 3:
 		d = genStr()
@@ -121,7 +110,6 @@ func HarnessC01Numeric() {
 		s.ExclusiveMinimum = verifBool()
 	}
 	f := symNum()
-	verifKF("C01-KF-INT", kfNearInteger(f))
 	checkC01(&s, f)
 }
 
